@@ -76,3 +76,18 @@ Proof. by move=> *; apply: m1_additive. Qed.
 End C02.
 Print Assumptions C02_sfs_cross_moments_transfer_given_ExpLaws.
 Print Assumptions C02_mean_additive_in_reward_given_ExpLaws.
+
+(* ------------------------------------------------------------------------------------------------
+   Unconditional over the reals: the laws E0-E2 (and positivity) are theorems about the real matrix
+   exponential mexp (analysis/MExp.v: entrywise limit of the exponential series), so the statements
+   above hold for the matrix exponential itself, not only "given ExpLaws". *)
+From PG Require Import analysis.Rstruct analysis.RSums analysis.MExp analysis.MExpLaws.
+
+Theorem C02_sfs_cross_moments_transfer_real :
+  forall m n (P : 'M[R]_(m, n)) (SL : 'M[R]_m) (SC : 'M[R]_n) (RL : nat -> 'M[R]_m) (RC : nat -> 'M[R]_n)
+         (aL : 'rV[R]_m) (eC : 'cV[R]_n) (t : R),
+    SL *m P = P *m SC -> (forall i, (i < 2)%N -> RL i *m P = P *m RC i) ->
+    aL *m vltr (k:=2) (mexp (t *: vl SL RL 2)) *m (P *m eC)
+    = (aL *m P) *m vltr (k:=2) (mexp (t *: vl SC RC 2)) *m eC.
+Proof. by move=> *; apply: real_mk_lumping. Qed.
+Print Assumptions C02_sfs_cross_moments_transfer_real.
